@@ -81,6 +81,7 @@ def lookup_task(task):
     labels_bad = []
     accepted = 0
     seen_keys = set()
+    iter_bad = []
     for k in sizes:
         for ranks in itertools.combinations_with_replacement(order, k):
             if max(Counter(ranks).values()) > 4:
@@ -105,6 +106,14 @@ def lookup_task(task):
                 if (v is not None) != has:
                     bad_valid.append((ranks, suited, v, has))
                     continue
+                if has and (keys % 7 == 0):
+                    # CardsLike: the same question asked with a one-shot iterable (State asks about `get_up_cards(i)`, a generator)
+                    try:
+                        e_it = lk.get_entry_or_none(c for c in cs) if hasattr(lk, 'get_entry_or_none') else lk.get_entry(iter(cs))
+                        if e_it is None or e_it.index != lk.get_entry(cs).index or not lk.has_entry(iter(cs)):
+                            iter_bad.append((ranks, suited))
+                    except Exception as e:   # noqa
+                        iter_bad.append((ranks, suited, repr(e)))
                 if has:
                     accepted += 1
                     seen_keys.add(lk._get_key(cs))
@@ -139,6 +148,7 @@ def lookup_task(task):
     indices = sorted({e.index for e in entries.values()})
     dense = indices == list(range(len(indices)))
     out.append(res(f'C04/{name}/indices-dense/E', dense, f'{len(indices)} distinct indices', meta=meta))
+    out.append(res(f'C04/{name}/a-one-shot-iterable-of-cards-gets-the-same-answer/E', not iter_bad, f'{iter_bad[:4]}', meta=meta))
     # the real table holds no key beyond those enumerated above (sizes of the type, multiplicities <= 4): every key is a product of rank
     # primes, so its number of prime factors is the number of cards it stands for
     primes = (2, 3, 5, 7, 11, 13, 17, 19, 23, 29, 31, 37, 41)
@@ -289,6 +299,64 @@ def wiring_task(task):
             'contract': None}
 
 
+def operators_task(task):
+    """label B (bounded stand-in, never counted): the comparison operators of real hand objects agree with the order of their table entries
+    on a structured pool (for each of a sample of rank multisets one single-suited and one mixed-suit realisation -- the pairs where only
+    the suits differ are where a shortcut on ranks goes wrong).  The deductive wrapper tasks assume the operators depend on the entry only;
+    this supplies a failing input where changed operators look at the cards themselves."""
+    import random
+    from pokerkit.utilities import Deck, Card
+    name = task['cls']
+    cls = _classes()[name]
+    rng = random.Random(7)
+    deck = list(Deck.STANDARD)
+    by_rank = {}
+    for c in deck:
+        by_rank.setdefault(c.rank, []).append(c)
+    sizes = {'BadugiHand': (4, 3), 'StandardBadugiHand': (4, 3), 'KuhnPokerHand': (1,)}.get(name, (5,))
+    pool = []
+    ranks = list(by_rank)
+    tries = 0
+    while len(pool) < task['pool'] and tries < 4000:
+        tries += 1
+        k = rng.choice(sizes)
+        rs = rng.sample(ranks, k) if rng.random() < 0.75 else [rng.choice(ranks) for _ in range(k)]
+        for suited in (True, False):
+            cards, used = [], set()
+            ok = True
+            for i, r in enumerate(rs):
+                cand = [c for c in by_rank[r] if c not in used and (not suited or c.suit == by_rank[rs[0]][0].suit or i == 0)]
+                if suited:
+                    cand = [c for c in by_rank[r] if c not in used and c.suit == by_rank[rs[0]][1].suit]
+                else:
+                    cand = [c for c in by_rank[r] if c not in used]
+                    cand = cand[i % len(cand):] + cand[:i % len(cand)] if cand else cand
+                if not cand:
+                    ok = False
+                    break
+                cards.append(cand[0]); used.add(cand[0])
+            if not ok:
+                continue
+            try:
+                pool.append(cls(tuple(cards)))
+            except ValueError:
+                pass
+    bad, n = [], 0
+    for a in pool:
+        for b_ in pool:
+            n += 1
+            ia, ib = a.entry.index, b_.entry.index
+            stronger = (ia < ib) if cls.low else (ia > ib)
+            weaker = (ia > ib) if cls.low else (ia < ib)
+            got = (a == b_, a != b_, a < b_, a > b_, a <= b_, a >= b_, hash(a) == hash(b_) or ia != ib)
+            want = (ia == ib, ia != ib, weaker, stronger, not stronger, not weaker, True)
+            if got != want and len(bad) < 4:
+                bad.append((repr(a), repr(b_), got, want))
+    return {'results': [], 'contract': None, 'task': f'operators/{name}',
+            'standin': {'label': 'B', 'bound': f'{len(pool)} real {name} objects (suited / mixed realisations of sampled rank multisets), all ordered pairs',
+                        'evaluations': n, 'failures': bad}}
+
+
 def vc_task(task):
     from pyvc.run import verify_contract
     from pyvc.shapes import Shape
@@ -321,6 +389,8 @@ def main(argv=None):
     for name in _classes():
         tasks.append({'module': M, 'fn': 'small_sizes_task', 'cls': name, 'name': f'sizes/{name}', 'pool': 30 if thorough else 16, 'weight': 2})
     tasks.append({'module': M, 'fn': 'wiring_task', 'name': 'wiring', 'weight': 4})
+    for name in _classes():
+        tasks.append({'module': M, 'fn': 'operators_task', 'cls': name, 'pool': 60 if not thorough else 160, 'name': f'operators/{name}', 'weight': 3})
     import contracts.c04 as c
     for t in c.tasks(chk.tier):
         t.update({'module': M, 'fn': 'vc_task'})
@@ -356,7 +426,10 @@ def main(argv=None):
         '"rejected" is read as "an exception is raised and no hand object exists": unknown cards raise KeyError where ValueError is documented (observation F9, not a violation)',
         'E results are complete for the stated domain but the back end is CPython executing the real code, not an SMT solver',
     ]
+    sis = [t['standin'] for t in chk.task_reports if t.get('standin')]
+    chk.assumptions.append('the operator comparison over a pool of real hands is a bounded stand-in (label B), never counted')
     return chk.finish(checker_cmd='./check C04 --tier ' + chk.tier, exhaustive=True,
+                      standin={'label': 'B', 'what': 'operators of real hand objects vs entry order', 'evaluations': sum(x['evaluations'] for x in sis), 'failures': [f for x in sis for f in x['failures']][:6]},
                       explanation='E: real tables / real constructors evaluated on their entire domain against spec/ranking.py; '
                                   'D: comparison wrappers with symbolic entry indices (pyvc + z3)')
 
